@@ -8,7 +8,7 @@ fn field<'a>(case: &'a str, key: &str) -> &'a str {
 
 pub fn enum_make_query(_s: u64) -> Vec<String> {
     let mut v = vec![];
-    for flag in ["f", "t"] { for id in [0usize, 1, 7, 1000] { for ctor in ["make_query", "parse_query", "start_query"] {
+    for flag in ["f", "t"] { for id in [0usize, 1, 7, 1000] { for ctor in ["make_query", "parse_query", "start_query", "timer"] {
         v.push(format!("flag={};id={};ctor={}", flag, id, ctor));
     } } }
     v
@@ -25,6 +25,14 @@ pub fn check_make_query(case: &str) -> Result<(), String> {
     let mut kb = KnowledgeBase::new();
     let fact = parse_rule("p(a).").unwrap();
     add_rules!(&mut kb, fact);
+    if field(case, "ctor") == "timer" {
+        // solve() and solve_all() start every search with start_query_timer()
+        let t = start_query_timer(1000);
+        let stopped = query_stopped();
+        cancel_timer(t);
+        if stopped { return Err("stop flag of an earlier (timed-out) query still set after start_query_timer(); solve() would report a timeout".into()); }
+        return Ok(());
+    }
     let query = match field(case, "ctor") {
         "make_query" => make_query(vec![Unifiable::Atom("p".to_string()), Unifiable::LogicVar { id: 0, name: "$X".to_string() }]),
         "parse_query" => parse_query("p($X)").unwrap(),
